@@ -1,4 +1,5 @@
 import SlipVerif.Model.Types
+import SlipVerif.Model.ClassReg
 import SlipVerif.Driver.Util
 --! namespace: type
 /- line protocol for C16 (type predicates over the regenerated tables):
@@ -9,6 +10,10 @@ import SlipVerif.Driver.Util
    type cspec <spec> <type-of> <value|-> <length|->   -> ok accept | ok reject   coerce to a compound specifier, given what the
                                                        conversion to its head produced (type-of, exact value n/d, length)
    type specsub <base>[/<elem>] <base>[/<elem>]       -> ok t | ok nil            subtypep on (base elem) specifiers
+   type classhist <op>*   -> ok <obs>*   history over user defined classes (Model/ClassReg.lean)
+       op:  d<c>:<s>,<s>… define class c with direct superclasses | i<k>:<c> instance k of class c | t<k>:<σ> typep
+            | s<σ>:<σ> subtypep | o<k> type-of         σ: u<c> user class | b standard-object | T t | a fixnum
+       obs: - | t | n | u<c> | R:<why> (history outside the modelled fragment)
    spec: a:<name> | r:<head>:<lo>:<hi> | v:<elem|*>:<n|*> | z:<head>:<n|*>       bounds: * or n/d
 -/
 namespace SlipVerif.Driver.Types
@@ -48,8 +53,57 @@ def parseObs (ty v l : String) : Option Obs := do
   let len ← if l = "-" then some none else l.toNat?.map some
   some ⟨ty, val, len⟩
 
+open SlipVerif.ClassReg in
+def parseTy (s : String) : Option Ty :=
+  match s.toList with
+  | ['b'] => some .base
+  | ['T'] => some .top
+  | ['a'] => some .alien
+  | 'u' :: r => (String.ofList r).toNat?.map .user
+  | _ => none
+
+open SlipVerif.ClassReg in
+def parseClassOp (s : String) : Option Op :=
+  match s.toList with
+  | 'o' :: r => (String.ofList r).toNat?.map .tof
+  | 'd' :: r =>
+    match (String.ofList r).splitOn ":" with
+    | [c, ss] => do
+        let c ← c.toNat?
+        let sup ← if ss = "" then some [] else (ss.splitOn ",").mapM (·.toNat?)
+        some (.defc c sup)
+    | _ => none
+  | 'i' :: r =>
+    match (String.ofList r).splitOn ":" with
+    | [k, c] => do some (.inst (← k.toNat?) (← c.toNat?))
+    | _ => none
+  | 't' :: r =>
+    match (String.ofList r).splitOn ":" with
+    | [k, t] => do some (.typ (← k.toNat?) (← parseTy t))
+    | _ => none
+  | 's' :: r =>
+    match (String.ofList r).splitOn ":" with
+    | [a, b] => do some (.sub (← parseTy a) (← parseTy b))
+    | _ => none
+  | _ => none
+
+open SlipVerif.ClassReg in
+def showObs : SlipVerif.ClassReg.Obs → String
+  | .done => "-"
+  | .bool true => "t"
+  | .bool false => "n"
+  | .ty (.user c) => s!"u{c}"
+  | .ty .base => "b"
+  | .ty .top => "T"
+  | .ty .alien => "a"
+  | .rejected why => "R:" ++ why
+
 def handle (entry : String) (args : List String) : String :=
   match entry, args with
+  | "classhist", ops =>
+    match ops.mapM parseClassOp with
+    | some os => "ok " ++ String.intercalate " " ((SlipVerif.ClassReg.run {} os).map showObs)
+    | none => "bad-request classhist"
   | "row", [ty] =>
     let h := match hierOf hierarchies ty with | some h => commas h | none => "-"
     let subs := (classNames classes).filter (fun σ => subtypep classes ty σ)
